@@ -42,6 +42,10 @@ let str_of_part = function
 let () =
   let cur_id = ref "" and cur_n = ref 0 and cur_w = ref false in
   let ds = ref [] and qs = ref [] and fs = ref [] and kind = ref "C" and cur_uf = ref false in
+  let amap = ref [] and hard = ref [] and cls = ref [] and grps = ref [] and curkey = ref (-1) and form = ref FTop in
+  let parse_lits r = List.map (fun t -> let i = int_of_string t in (i > 0, nat_of_int (abs i - 1))) r in
+  let flush_group () = if !curkey >= 0 then begin grps := (nat_of_int !curkey, List.rev !cls) :: !grps; cls := []; curkey := -1 end in
+  let str_of_fam fam = String.concat "" (List.map (fun l -> "{" ^ String.concat "," (List.map (fun k -> string_of_int (int_of_nat k)) l) ^ "}") fam) in
   (try
      while true do
        let line = input_line stdin in
@@ -51,11 +55,24 @@ let () =
            kind := "C"; cur_id := id; cur_n := int_of_string n; cur_w := (w = "1"); ds := []; qs := []
        | "G" :: id :: n :: w :: uf :: _ ->
            kind := "G"; cur_id := id; cur_n := int_of_string n; cur_w := (w = "1"); cur_uf := (uf = "1"); ds := []; fs := []
+       | "K" :: id :: n :: _ -> kind := "K"; cur_id := id; cur_n := int_of_string n; cls := []; amap := []
+       | "M" :: id :: n :: _ -> kind := "M"; cur_id := id; cur_n := int_of_string n; cls := []; hard := []; grps := []; curkey := -1
+       | "A" :: r -> amap := List.map (fun t -> nat_of_int (int_of_string t)) r
+       | "O" :: r -> let (f, rest) = parse_form r in if rest <> [] then failwith "O: trailing"; form := f
+       | "L" :: r -> cls := parse_lits r :: !cls
+       | "H" :: r -> hard := parse_lits r :: !hard
+       | "S" :: k :: _ -> flush_group (); curkey := int_of_string k
        | "F" :: r -> let (f, rest) = parse_form r in if rest <> [] then failwith "fact: trailing"; fs := f :: !fs
        | "D" :: r -> ds := parse_cond r :: !ds
        | "Q" :: r -> qs := parse_cond r :: !qs
        | "E" :: _ ->
-           if !kind = "C" then begin
+           if !kind = "K" then
+             Printf.printf "%s|%s\n" !cur_id (if run_faithful (nat_of_int !cur_n) !amap !form (List.rev !cls) then "1" else "0")
+           else if !kind = "M" then begin
+             flush_group ();
+             let (fam, lp) = run_mcs (nat_of_int !cur_n) (List.rev !hard) (List.rev !grps) in
+             Printf.printf "%s|%s|%s\n" !cur_id (str_of_fam fam) (match lp with None -> "N" | Some f -> str_of_fam f)
+           end else if !kind = "C" then begin
              let ((part, partidx), rows) = run_case (nat_of_int !cur_n) !cur_w (List.rev !ds) (List.rev !qs) in
              let rows_s = String.concat " " (List.map (fun (m, s) -> str_of_res m ^ ":" ^ str_of_res s) rows) in
              Printf.printf "%s|%s|%s|%s\n" !cur_id (str_of_part part) (str_of_part partidx) rows_s
